@@ -10,43 +10,12 @@ from ..harness import Subject, Policy
 from ..spec import (EXPLOIT, PRIVESC, SCAN_KINDS, SRV_SCAN, OS_SCAN, SUB_SCAN,
                     PROC_SCAN)
 from ..verdict import Acc
-from .api import decode_vector, make_source
+from .api import make_source
+from ..paramspace import decode_vector, vector_for
 
 SIZES = {"quick": dict(n_synth=40, n_gen=8, steps=200, seeds=1),
          "thorough": dict(n_synth=900, n_gen=150, steps=600, seeds=2)}
 MODES = list(itertools.product([False, True], repeat=3))
-TYPE_IDX = {EXPLOIT: 0, PRIVESC: 1, SRV_SCAN: 2, OS_SCAN: 3, SUB_SCAN: 4,
-            PROC_SCAN: 5}
-
-
-def vector_for(sp, d, rng=None):
-    """A parameterised vector that documents to the same action as flat
-    descriptor d, or None if the action is not expressible (shadowed
-    duplicate definition, process-less escalation)."""
-    t = d["target"]
-    v = [TYPE_IDX[d["kind"]], t[0] - 1, t[1], 0, 0, 0]
-    if d["kind"] in (EXPLOIT, PRIVESC):
-        v[3] = 0 if d["os"] is None else sp.os.index(d["os"]) + 1
-        if d["kind"] == EXPLOIT:
-            v[4] = sp.services.index(d["service"])
-        else:
-            if d["process"] is None:
-                return None
-            v[5] = sp.processes.index(d["process"])
-    elif rng is not None:
-        v[3] = rng.randrange(len(sp.os) + 1)
-        v[4] = rng.randrange(len(sp.services))
-        v[5] = rng.randrange(len(sp.processes))
-    back, _ = decode_vector(sp, v)
-    if back["kind"] != d["kind"] or back["name"] != d["name"] or \
-            back["target"] != d["target"]:
-        return None
-    if rng is not None and rng.random() < 0.3:
-        # a host index that wraps around to the same host
-        size = sp.subnets[t[0]]
-        if t[1] + size < max(sp.subnets):
-            v[2] = t[1] + size
-    return v
 
 
 def norm_info(info):
